@@ -286,6 +286,35 @@ theorem construct_partial (W : World) (t : TypeShape) (p : Nat) (cur : PkgID)
 
 example : getDeclaredPkgID (.ptrTo (.declared 1)) = some 1 := rfl
 
+/-- A DECLARED map / slice / array / struct type (`type Voucher map[string]int`)
+    is gated whatever its base kind — because the check is applied to the declared
+    type itself: composite literals, `make` and `new` of it pass only inside the
+    declaring realm. -/
+theorem declared_composite_refused_outside (W : World) (p : Nat) (base : TypeShape) (cur : PkgID)
+    (hk : W.isRealmPkg (some p) = true)
+    (h : checkConstruction W cur (getDeclaredPkgID (.named p base)) = .ok ()) : cur = some p :=
+  construction_only_in_declaring_realm W cur (some p) hk h
+
+example : checkConstruction cexWorld (some 4) (getDeclaredPkgID (.named 1 (.mapOf .anon))) = .error .alloc := rfl
+
+/-- …and applying the check to `baseOf(t)` instead (an anonymous map / slice /
+    array type) would let every realm construct it: the guard is in the NAME. -/
+theorem check_on_base_type_gates_nothing (W : World) (p : Nat) (elem : TypeShape) (cur : PkgID) :
+    checkConstruction W cur (getDeclaredPkgID (TypeShape.named p (.mapOf elem)).baseOf) = .ok () ∧
+    checkConstruction W cur (getDeclaredPkgID (TypeShape.named p (.sliceOf elem)).baseOf) = .ok () ∧
+    checkConstruction W cur (getDeclaredPkgID (TypeShape.named p (.arrayOf elem)).baseOf) = .ok () := by
+  simp [TypeShape.baseOf, getDeclaredPkgID, checkConstruction, World.isRealmPkg]
+
+/-- `doOpConvert` case 2: a value cannot be converted to a non-primitive type
+    declared in another /r/ package. -/
+theorem conversion_to_foreign_realm_type_refused (W : World) (s : St) (r decl : Nat)
+    (hr : s.realm = some r) (hk : W.isRealmPath decl = true) (hne : r ≠ decl) :
+    convToGuard W s decl false = .error .conv := by
+  have : (some r != some decl) = true := by simp [bne_iff_ne, hne]
+  simp [convToGuard, hr, hk, this]
+
+example : convToGuard cexWorld ⟨some 4, 4, true⟩ 1 false = .error .conv := rfl
+
 /-- `make([]victim.T, 2)` in another realm passes the check. -/
 theorem construct_counterexample : ¬ construct_statement cexWorld := by
   intro hst
